@@ -152,4 +152,215 @@ func census(r *lib.Run) {
 	}
 	r.Case("sites", toks, strings.Join(toks, ","))
 	r.Stat("class.sites", 1)
+	// call graph: every declaration that reaches a send site
+	keys := reachCensus(r)
+	for _, k := range keys {
+		if _, ok := reachClass[k]; !ok {
+			r.Viol("send-reach-not-classified", k+" reaches a send site of the library and C07 neither models it nor lists it as a caller / not modelled", "reach "+k)
+		}
+	}
+	for k := range reachClass {
+		found := false
+		for _, x := range keys {
+			found = found || x == k
+		}
+		if !found {
+			r.Stat("reach.listed-but-absent."+k, 1)
+		}
+	}
+	r.Case("reach", keys, strings.Join(keys, ","))
+	r.Stat("class.reach", 1)
+}
+
+// reachClass mirrors send_reach of coq/Extract/D07.v (first word of the classification).
+var reachClass = map[string]string{
+	".:Config.NewSession": "caller",
+	".:ExecPing": "not modelled",
+	".:GetIP4DefaultGatewayAddr": "not modelled",
+	".:GetLinuxDefaultGateway": "not modelled",
+	".:GetNICInfo": "not modelled",
+	".:LoadLinuxARPTable": "not modelled",
+	".:NewSession": "caller",
+	".:Session.ICMP4SendEchoRequest": "model send_echo4",
+	".:Session.ICMP6SendEchoRequest": "model send_echo6",
+	".:Session.ICMP6SendNeighborAdvertisement": "model send_na",
+	".:Session.ICMP6SendNeighbourSolicitation": "model send_ns",
+	".:Session.ICMP6SendRouterAdvertisement": "model send_ra",
+	".:Session.ICMP6SendRouterSolicitation": "model send_rs",
+	".:Session.Ping": "caller",
+	".:Session.Ping6": "caller",
+	".:Session.ValidateDefaultRouter": "caller",
+	".:Session.VerifPingFrom": "caller",
+	".:Session.VerifPurge": "model send_purge_arp / send_purge_ip6 (one probe per stale host",
+	".:Session.arpRequest": "model send_arp_request",
+	".:Session.icmp4SendPacket": "model icmp4_send_packet",
+	".:Session.icmp6SendPacket": "model icmp6_send_packet",
+	".:Session.ping": "caller",
+	".:Session.purge": "model send_purge_arp / send_purge_ip6 (one probe per stale host",
+	".:init": "not modelled",
+	".:packetConn.WriteTo": "not modelled",
+	".:sysSocket.Sendto": "not modelled",
+	"handlers/arp_spoofer:Handler.AnnounceTo": "model arp_announce_to",
+	"handlers/arp_spoofer:Handler.Probe": "model arp_probe",
+	"handlers/arp_spoofer:Handler.ProcessPacket": "caller",
+	"handlers/arp_spoofer:Handler.Reply": "model send_arp",
+	"handlers/arp_spoofer:Handler.Request": "model arp_request / arp_request_to",
+	"handlers/arp_spoofer:Handler.RequestRaw": "model send_arp",
+	"handlers/arp_spoofer:Handler.RequestTo": "model arp_request / arp_request_to",
+	"handlers/arp_spoofer:Handler.Scan": "caller",
+	"handlers/arp_spoofer:Handler.StartHunt": "caller",
+	"handlers/arp_spoofer:Handler.WhoIs": "caller",
+	"handlers/arp_spoofer:Handler.reply": "model send_arp",
+	"handlers/arp_spoofer:Handler.spoofLoop": "caller",
+	"handlers/dhcp4_spoofer:Handler.ProcessPacket": "caller",
+	"handlers/dhcp4_spoofer:Handler.SendDiscoverPacket": "model send_discover",
+	"handlers/dhcp4_spoofer:Handler.StartHunt": "caller",
+	"handlers/dhcp4_spoofer:Handler.attackDHCPServer": "caller",
+	"handlers/dhcp4_spoofer:Handler.forceDecline": "caller",
+	"handlers/dhcp4_spoofer:Handler.forceRelease": "caller",
+	"handlers/dhcp4_spoofer:Handler.handleDiscover": "caller",
+	"handlers/dhcp4_spoofer:Handler.handleRequest": "caller",
+	"handlers/dhcp4_spoofer:Handler.processClientPacket": "caller",
+	"handlers/dhcp4_spoofer:Handler.sendDeclineReleasePacket": "model send_decline_release",
+	"handlers/dhcp4_spoofer:sendDHCP4Packet": "model send_dhcp4_packet",
+	"handlers/dns_naming:DNSHandler.SendLLMNRQuery": "model send_llmnr_query",
+	"handlers/dns_naming:DNSHandler.SendMDNSQuery": "model send_mdns_query",
+	"handlers/dns_naming:DNSHandler.SendNBNSNodeStatus": "model send_nbns_node_status",
+	"handlers/dns_naming:DNSHandler.SendNBNSQuery": "model send_nbns_query",
+	"handlers/dns_naming:DNSHandler.SendSSDPSearch": "model send_ssdp_search",
+	"handlers/dns_naming:DNSHandler.SendSleepProxyResponse": "event EvMdns (DNS message packed by third-party dnsmessage, carried by send_mdns)",
+	"handlers/dns_naming:DNSHandler.Start": "caller",
+	"handlers/dns_naming:DNSHandler.sendMDNS": "model send_mdns",
+	"handlers/dns_naming:DNSHandler.sendMDNSQuery": "model send_mdns_query",
+	"handlers/dns_naming:DNSHandler.sendNBNS": "model send_nbns",
+	"handlers/icmp_spoofer:Handler6.PingAll": "caller",
+	"handlers/icmp_spoofer:Handler6.ProcessPacket": "caller",
+	"handlers/icmp_spoofer:Handler6.StartHunt": "caller",
+	"handlers/icmp_spoofer:Handler6.StartRADVS": "caller",
+	"handlers/icmp_spoofer:Handler6.spoofLoop": "caller",
+	"handlers/icmp_spoofer:Handler6.startRADVS": "caller",
+	"handlers/icmp_spoofer:RADVS.SendRA": "caller",
+	"handlers/icmp_spoofer:RADVS.sendAdvertistementLoop": "caller",
+}
+
+
+// ---------------------------------------------------------------- call graph: who reaches a send site
+
+// reachCensus builds a name-based call graph of the library from the source (every package, no _test.go, no
+// examples/): nodes are function declarations keyed dir:Receiver.Name, a call x.Name(...) or Name(...) has an
+// edge to every declaration called Name (an over-approximation that needs no type information and does not
+// depend on the names of locals or receivers).  It returns, sorted, every declaration from which a send site
+// (a WriteTo / WriteToUDP / WriteMsgUDP / Sendto call with a destination) is reachable, function literals and
+// goroutines started inside a function included.
+func reachCensus(r *lib.Run) []string {
+	root := os.Getenv("VERIF_REPO")
+	if root == "" {
+		root = "/repo"
+	}
+	type node struct {
+		key    string
+		dir    string
+		method bool
+		name   string
+		mcalls map[string]bool // x.Name(...) with n arguments, as "Name/n": methods called Name, or functions of another package
+		fcalls map[string]bool // Name(...) with n arguments: functions of the same package
+		npar   int             // number of parameters (-1: variadic)
+		sink   bool
+	}
+	nodes := []*node{}
+	fset := token.NewFileSet()
+	filepath.Walk(root, func(path string, info os.FileInfo, err error) error {
+		if err != nil {
+			return nil
+		}
+		if info.IsDir() {
+			if n := info.Name(); n == "examples" || n == ".git" || n == "vendor" {
+				return filepath.SkipDir
+			}
+			return nil
+		}
+		if !strings.HasSuffix(path, ".go") || strings.HasSuffix(path, "_test.go") {
+			return nil
+		}
+		f, err := parser.ParseFile(fset, path, nil, 0)
+		if err != nil {
+			return nil
+		}
+		dir, _ := filepath.Rel(root, filepath.Dir(path))
+		for _, d := range f.Decls {
+			fd, ok := d.(*ast.FuncDecl)
+			if !ok || fd.Body == nil {
+				continue
+			}
+			recv := ""
+			if fd.Recv != nil && len(fd.Recv.List) == 1 {
+				recv = strings.TrimPrefix(exprString(fd.Recv.List[0].Type), "*") + "."
+			}
+			n := &node{key: filepath.ToSlash(dir) + ":" + recv + fd.Name.Name, dir: dir, method: recv != "", name: fd.Name.Name,
+				mcalls: map[string]bool{}, fcalls: map[string]bool{}}
+			for _, p := range fd.Type.Params.List {
+				if _, variadic := p.Type.(*ast.Ellipsis); variadic {
+					n.npar = -1
+					break
+				}
+				if len(p.Names) == 0 {
+					n.npar++
+				}
+				n.npar += len(p.Names)
+			}
+			ast.Inspect(fd.Body, func(x ast.Node) bool {
+				call, ok := x.(*ast.CallExpr)
+				if !ok {
+					return true
+				}
+				switch fn := call.Fun.(type) {
+				case *ast.Ident:
+					n.fcalls[fmt.Sprintf("%s/%d", fn.Name, len(call.Args))] = true
+					n.fcalls[fn.Name+"/-1"] = true
+				case *ast.SelectorExpr:
+					n.mcalls[fmt.Sprintf("%s/%d", fn.Sel.Name, len(call.Args))] = true
+					n.mcalls[fn.Sel.Name+"/-1"] = true
+					if sendMethods[fn.Sel.Name] && len(call.Args) >= 2 {
+						n.sink = true
+					}
+				}
+				return true
+			})
+			nodes = append(nodes, n)
+		}
+		return nil
+	})
+	reach := map[*node]bool{}
+	for changed := true; changed; {
+		changed = false
+		for _, n := range nodes {
+			if reach[n] {
+				continue
+			}
+			hit := n.sink
+			for _, m := range nodes {
+				if !reach[m] {
+					continue
+				}
+				// Name(...) -> a function of the same package; x.Name(...) -> a method of any package, or a
+				// function of another package (pkg.Name)
+				sig := fmt.Sprintf("%s/%d", m.name, m.npar) // same name and number of arguments (a variadic callee takes any)
+				if (!m.method && m.dir == n.dir && n.fcalls[sig]) || (n.mcalls[sig] && (m.method || m.dir != n.dir)) {
+					hit = true
+					break
+				}
+			}
+			if hit {
+				reach[n], changed = true, true
+			}
+		}
+	}
+	keys := []string{}
+	for n := range reach {
+		keys = append(keys, n.key)
+	}
+	sort.Strings(keys)
+	r.Stat("reach.declarations", int64(len(nodes)))
+	r.Stat("reach.reaching-a-send-site", int64(len(keys)))
+	return keys
 }
